@@ -519,6 +519,9 @@ def generate(ctx):
 def run(ctx, status):
     from ..extract import gen
     io_status = gen.regen_io()
+    if "__crash__" in io_status:
+        ctx.fail("tgen:io_tables", io_status["__crash__"], {"stage": "I/O table extraction"}, found_input=False, kind="obligation")
+        io_status = {}
     for k, v in io_status.items():
         if v not in ("extracted", "extracted (ast)", "extracted (ast+exec agree)") and k.startswith(("h5.", "symmetry.")):
             ctx.note(f"T-gen: {k} {v}")
